@@ -12,7 +12,13 @@ const (
 	Green
 )
 
+type Label struct {
+	Text string
+}
+
 type Paint struct {
-	Own   Color
-	Other inner.Color
+	Own      Color
+	Other    inner.Color
+	Tag      Label
+	OtherTag inner.Label
 }
